@@ -202,8 +202,10 @@ fn residency(enter: bool, obj: usize, t: usize) {
     }
 }
 
+pub static INSTALLED: AtomicBool = AtomicBool::new(false);
 pub fn install() {
     may::queue::verif::set_hook(hook);
+    INSTALLED.store(true, SeqCst);
 }
 
 #[derive(Clone, Debug, Default)]
